@@ -604,6 +604,9 @@ def plan_c08_c11(pid, tier, seed, ncpu):
         js += deq_jobs(d, workdir, known, pid, seed, 1, scale(tier, 40000, 800000))
         if pid == "C08":
             js += sketch_jobs(d, workdir, known, pid, seed, 2, scale(tier, 2000000, 30000000), big=thorough)
+            # every cache the builders accept (the whole lattice of boundary values) must survive a few ordinary calls
+            out = os.path.join(workdir, "cfg-lattice.json")
+            js.append(dict(name="cfg-lattice", argv=[os.path.join(d, "cfgmon"), "--prop", pid, "--seed", str(seed), "--shard", "0", "--pairs", "200", "--out", out], out=out, kind="report"))
         a = bindirs["asan"]
         aj = seq_jobs(a, workdir, known, pid, "safety", scale(tier, 16000, 600000), 50, seed + 1, scale(tier, 4, 8), extra=["--drop-percent", "25"], prefix="aseq")
         aj += seq_jobs(a, workdir, known, pid, "fault", scale(tier, 8000, 300000), 50, seed + 1, 2, extra=["--drop-percent", "10"], prefix="afault")
@@ -639,6 +642,8 @@ def plan_c08_c11(pid, tier, seed, ncpu):
         "miri_ops": 100, "miri_deque_unlink_and_drop": 10, "miri_deque_move_to_back": 10, "miri_quiescence_checks": 2,
         "faults_fired": 1000 * m, "asan_faults_fired": 300, "miri_faults_fired": 1,
     }
+    if pid == "C08":
+        floors["built_caches_exercised"] = 4000
     if thorough:
         floors.update({"tsan_gets_judged": 1000, "memcheck_ops": 10000})
     if pid == "C08":
